@@ -161,11 +161,11 @@ func runC02(c *Ctx) {
 		// early return inside the parameter loop only with a result that filterSVCBHint produced
 		for _, b := range fh.Blocks {
 			for _, in := range b.Instrs {
-				ret, ok := in.(*ssa.Return)
+				ret, ok := core.AsReturn(in)
 				if !ok || len(ret.Results) != 2 {
 					continue
 				}
-				v := core.ResolveLocalLoad(ret.Results[0])
+				v := core.ResolveLocalLoad(core.Res(ret, 0))
 				if core.IsNilConst(v) {
 					continue
 				}
@@ -187,11 +187,11 @@ func runC02(c *Ctx) {
 			return false, false
 		})
 		off, ns := core.UnguardedSinks(fs, func(in ssa.Instruction) bool {
-			ret, ok := in.(*ssa.Return)
+			ret, ok := core.AsReturn(in)
 			if !ok || len(ret.Results) != 2 || in.Block() == fs.Recover {
 				return false
 			}
-			return !core.IsNilConst(core.ResolveCellLoad(core.ResolveLocalLoad(ret.Results[0])))
+			return !core.IsNilConst(core.ResolveCellLoad(core.ResolveLocalLoad(core.Res(ret, 0))))
 		}, gF)
 		r.Check(nF > 0 && ns > 0 && len(off) == 0, "C02-D1", "hint-checker-reports-only-filtered", p.FnPos(fs),
 			"the hint checker returns a result only when an address is filtered, so a clean first parameter does not end the inspection",
